@@ -391,6 +391,10 @@ class Run(RunBase):
 
     def _sweep(self):
         sc = self.sc
+        lists = [id(o.prediction.trajectory.state_list) for o in sc.dynamic_obstacles
+                 if isinstance(o.prediction, TrajectoryPrediction)]
+        if len(lists) != len(set(lists)):
+            self.probe("two-obstacles-share-one-state-list")
         for ob in sc.obstacles:
             self._check_obstacle(ob)
         for la in sc.lanelet_network.lanelets:
@@ -1013,7 +1017,7 @@ class C11(Property):
     expected_probes = ["restart-with-warm-cache", "history-truncation-hit", "fork-keeps-original",
                        "continued-on-the-other-copy", "trajectory-replaced-by-shifted-copy",
                        "trajectory-object-transformed-and-reassigned", "cycle-edited-in-place-and-reassigned",
-                       "merge-with-id-clash",
+                       "merge-with-id-clash", "two-obstacles-share-one-state-list",
                        "cell:occupancy_at_time<-translate_rotate[scenario]",
                        "cell:occupancy_at_time<-translate_rotate[obstacle]",
                        "cell:occupancy_at_time<-translate_rotate[prediction]",
@@ -1075,6 +1079,12 @@ class C11(Property):
                     for kx in ("steer", "yaw", "slip", "acc"):
                         st.pop(kx, None)
             obstacles.append(ob)
+        trajs = [o for o in obstacles if o["role"] == "dynamic" and o.get("pred") and o["pred"]["kind"] == "traj"]
+        if trajs and rng.chance(0.15):
+            # a second obstacle whose trajectory is built from the very same list of state objects (legal, if sloppy)
+            src = rng.pick(trajs)
+            twin = dict(src, id=ids.take(), share_states_with=src["id"], shape=gen.gen_shape(rng, ("rect", "poly")))
+            obstacles.append(twin)
         pool_net = gen.gen_network(rng, rows=1, cols=rng.randint(1, 3), ids=ids, signs=False, lights=False,
                                    intersections=False, stop_lines=False, overlap=False, extra_links=False)
         pool = {}
